@@ -301,6 +301,6 @@ theorem handle_noSwap (s s' : Sys) (m : Msg) (ms : List Msg) (hx : s.handle m = 
   | stsei blk sender funds tm _ hx' _ _ _ _ _ => exact stseiExec_noSwap _ _ _ _ _ _ _ _ hx'
   | reward s1 sender funds rm _ _ _ _ hx' _ _ _ _ _ => exact rewardExec_noSwap _ _ _ _ _ _ _ _ _ hx'
   | disp env sender funds dm _ hx' _ _ _ _ _ => exact dispExec_noSwap _ _ _ _ _ _ _ hx'
-  | reg s1 sender funds rm _ _ hx' _ _ _ _ _ => exact regExec_noSwap _ _ _ _ _ hx'
+  | reg s1 sender funds rm _ _ _ _ hx' _ _ _ _ _ => exact regExec_noSwap _ _ _ _ _ hx'
 
 end Krp
